@@ -68,6 +68,7 @@ type c12Server struct {
 	autoPong bool
 	pings    atomic.Int64
 	pongAt   []time.Time // when a pong was written (under mu)
+	pingAt   []time.Time // when a ping arrived (under mu)
 }
 
 type c12Ln struct {
@@ -212,6 +213,9 @@ func (l *c12Ln) serve(c net.Conn) {
 			}
 		case c12MagicPing:
 			s.pings.Add(1)
+			s.mu.Lock()
+			s.pingAt = append(s.pingAt, time.Now())
+			s.mu.Unlock()
 			if s.autoPong && len(p.Payload) == 12 {
 				pong := make([]byte, 12)
 				binary.LittleEndian.PutUint32(pong, c12MagicPong)
